@@ -104,7 +104,7 @@ Abs(k, m, f) ==
          [] m = "pick" -> 10 [] m = "xpick" -> 20
          [] m = "data:copy" -> 40 [] m = "data:elem" -> 51
          [] m = "data:dtype" -> 62 [] m = "data:shape" -> 73
-         [] m = "mut:" \o f -> 31
+         [] m = "mut:" \o f -> 34
          [] OTHER -> 0
   ELSE IF m = "mut:" \o f THEN 1
   ELSE IF m = "data:shape" /\ f = "shape" THEN 1
